@@ -289,8 +289,21 @@ func (g *Gateway) queryHandler(w http.ResponseWriter, r *http.Request) {
 
 			introspectionRes := g.parseIntrospectionQuery(plan, request)
 			if introspectionRes != nil {
-				introspectionRes.index = index
-				return introspectionRes, nil
+				// the operation may select ordinary fields next to the introspection ones:
+				// the steps of the services are still to be executed (on a copy, the plan may be shared)
+				var serviceSteps []*planner.QueryPlanStep
+				for _, rs := range plan.RootSteps {
+					if rs.URL != common.InternalServiceName {
+						serviceSteps = append(serviceSteps, rs)
+					}
+				}
+				if len(serviceSteps) == 0 {
+					introspectionRes.index = index
+					return introspectionRes, nil
+				}
+				servicePlan := *plan
+				servicePlan.RootSteps = serviceSteps
+				plan = &servicePlan
 			}
 
 			queryers := g.getQueryers(planningContext, plan.RootSteps)
@@ -304,6 +317,15 @@ func (g *Gateway) queryHandler(w http.ResponseWriter, r *http.Request) {
 			})
 
 			plan.ScrubFields.Clean(result)
+
+			if introspectionRes != nil {
+				if result == nil {
+					result = make(map[string]interface{})
+				}
+				for k, v := range introspectionRes.Data {
+					result[k] = v
+				}
+			}
 
 			return &Result{
 				Errors: gqlerrors.FormatError(err),
